@@ -1,3 +1,4 @@
+pub mod api;
 pub mod closest;
 pub mod hash;
 pub mod id;
